@@ -2,7 +2,10 @@
 randdrive) against the REAL prov library and records, per call, what the
 public API shows.  It makes no judgement (DESIGN 2.4)."""
 import json
+import logging
 import sys
+
+logging.getLogger("rdflib").setLevel(logging.ERROR)
 
 import prov
 from prov.model import ProvDocument, ProvBundle, ProvException, Literal
@@ -82,6 +85,31 @@ def exc_name(e):
     return "other:" + type(e).__name__
 
 
+def sample_doc(voc, variant=0):
+    """A small document with non-ASCII content, in the intersection of the
+    PROV-JSON / PROV-XML / PROV-O expressible spaces; `variant` adds shapes."""
+    d = ProvDocument()
+    d.add_namespace("ex", "http://a.example/")
+    if variant % 2:
+        d.add_namespace("other", "http://c.example/")
+    s1 = voc.value("str", "s1")
+    if "\r" in s1 or "\\" in s1:
+        s1 = "s1"
+    e = d.entity("ex:e", {"ex:s": s1, "ex:u": "ünï-中", "ex:i": 7,
+                          "ex:t": voc.value("dt", "t1"), "prov:label": Literal("étiquette", langtag="fr")})
+    a = d.activity("ex:a", voc.value("dt", "t1"), None)
+    d.wasGeneratedBy(e, a, voc.value("dt", "t2"))
+    if variant >= 2:
+        ag = d.agent("other:ag" if variant % 2 else "ex:ag2", {"ex:b": True})
+        d.wasAssociatedWith(a, ag, identifier="ex:assoc", other_attributes={"prov:role": "ex:r"})
+        d.wasAttributedTo(e, ag)
+    if variant >= 4:
+        d.entity("ex:é-中", {"ex:q": d.valid_qualified_name("ex:e")})
+    b = d.bundle("ex:b")
+    b.agent("ex:ag")
+    return d
+
+
 class Loose(object):
     """A record that belongs to no container's list (record.copy()), presented
     with the little container API the projection needs."""
@@ -120,6 +148,7 @@ class World(object):
 
     def __init__(self, init, seed=0, salt=0):
         self.voc = Vocab(seed, salt)
+        self.voc_seed = seed
         self.salt = salt
         self.h = {}        # handle -> container
         self.handed = []   # (scope, printed form, uri segs)
@@ -379,6 +408,23 @@ class World(object):
                 self.h[a["out"]] = ProvBundle(identifier=ident)
                 return none
             return run
+        if op == "IO":
+            import iokinds
+            doc = sample_doc(Vocab(self.voc_seed, a["variant"]), a["variant"])
+            voc = Vocab(self.voc_seed, a["variant"])
+
+            def run():
+                return iokinds.run_io(doc, a["fmt"], voc)
+            return run
+        if op == "Save":
+            import fsfault
+            doc = sample_doc(self.voc, self.salt % 6)
+            fault = a["fault"][0] if a["fault"] else None
+
+            def run():
+                self.save = fsfault.run_save(doc, a["fmt"], a["name"], a["existing"], a["crossFs"], fault)
+                return none
+            return run
         if op == "CompareAll":
             objs = [self.h[x] for x in a["hs"]]
 
@@ -504,6 +550,10 @@ class World(object):
         st = {"op": a, "exc": exc, "res": res, "post": self.observe(),
               "parents": self.parents, "reres": self.reres()}
         st["look"], st["typed"], st["copy"] = self.lookups()
+        if a["op"] == "Save":
+            sv = self.save
+            st["exc"] = sv["exc"]
+            st["events"], st["final"], st["fired"] = sv["events"], sv["final"], sv["fired"]
         if pre is not None:
             st["pre"] = pre
         return st
